@@ -257,8 +257,8 @@ def _dispatch(args):
         return c15_serde_case(args[1:])
     if part == "layout":
         return c15_layout_case(args[1:])
-    from . import native_checks
-    return native_checks.c15_native_case(args[1:])
+    from . import order_native
+    return order_native.c15_native_case(args[1:])
 
 
 def run_c15(tier: str) -> int:
@@ -276,12 +276,9 @@ def run_c15(tier: str) -> int:
             cases.append(("serde", name, sch, tw, tier))
             if _can_variant(sch) is not None:
                 cases.append(("layout", name, sch, tw, tier))
-    try:
-        from . import native_checks
-        cases += native_checks.c15_native_cases(shapes, tier, rng)
-        native = True
-    except ImportError:
-        native = False
+    from . import order_native
+    cases += order_native.cases(shapes, lambda sch: permutations_of(sch, tier, random.Random(seed())), tier)
+    native = True
     rep.bounds = {
         "shapes": [n for n, _ in shapes],
         "permutations": "all permutations of the top struct's declarations (<= 24, quick: first 6), inner structs "
